@@ -203,3 +203,8 @@ def run(ctx):
                        f"{ex}:{n.lineno}", f"unknown keys {unknown} would be ignored silently" if unknown else f"callee reads {sorted(read_keys)}")
         ctx.analysed["example_call_sites"] = sites
     ctx.analysed.update({"configurations": n_cfg, "resolutions": RESOLUTIONS})
+    # ---- C12.7 / C12.8: the count is the same on every call ------------------------------------------------------------------
+    from . import purity
+    from .sizes import SizeEval as _SE
+    purity.grows_shared(ctx, "C12.7", CELL, "the number of vertices of the ring", within=set(_SE.VISITED))
+    purity.keeps_arguments(ctx, "C12.8", CELL, "a later call with the same options object sees what this call wrote into it, not the caller's choice")
